@@ -253,9 +253,18 @@ fn exec(c: &C, mock: &crate::common::time::clock::Mock, op: Op) -> String {
     }
 }
 
+fn policy_mismatch(c: &C, cfg: &Cfg) -> Option<(usize, Finding)> {
+    let pol = c.policy();
+    if pol.max_capacity() != cfg.cap || pol.time_to_live() != cfg.ttl.map(Duration::from_nanos) || pol.time_to_idle() != cfg.tti.map(Duration::from_nanos) {
+        return Some((0, Finding { tags: "C17", what: format!("policy() reports ({:?}, {:?}, {:?})", pol.max_capacity(), pol.time_to_live(), pol.time_to_idle()) }));
+    }
+    None
+}
+
 /// regime A
 pub fn run_history_a(cfg: Cfg, ops: &[Op]) -> Option<(usize, Finding)> {
     let (c, mock) = build(cfg);
+    if let Some(f) = policy_mismatch(&c, &cfg) { return Some(f); }
     let mut spec = Spec { cfg, sketch: FrequencySketch::default() };
     let mut errs = Vec::new();
     c.sync();
